@@ -11,7 +11,9 @@ from __future__ import annotations
 
 import ast
 import concurrent.futures as cf
+import contextlib
 import copy
+import io
 import inspect
 import json
 import os
@@ -28,9 +30,10 @@ from harness.impl import pyast
 MODULE = "CddVerif.Properties.C12"
 THEOREMS = [
     "C12.rewrite_frame", "C12.conform_frame", "C12.sync_frame",
-    "C12.C12_partial_class", "C12.C12_partial_created", "C12.truth_unchanged",
+    "C12.C12_partial_class", "C12.C12_partial_created", "C12.C12_partial_missing", "C12.truth_unchanged",
     "C12.conform_idempotent", "C12.sync_idempotent",
-    "C12.function_target_never_rewritten", "C12.C12_not_full_function", "C12.C12_not_full_argparse",
+    "C12.function_target_never_rewritten", "C12.toy_laws", "C12.witness_run",
+    "C12.C12_not_full_function", "C12.C12_not_full_argparse",
     "C12.dotted_append_not_idempotent", "C12.missing_function_file_raises",
 ]
 KINDS = ["argparse_function", "class", "function"]  # iteration order of arg2parse_emit_type
@@ -41,6 +44,11 @@ FNAME = {"argparse_function": "argp.py", "class": "cls.py", "function": "meth.py
 # ======================================================================================================
 # in-process ties: find_in_ast / RewriteAtQuery
 # ======================================================================================================
+def quiet():
+    """the docstring parser prints failed type probes to stderr; keep the check's output clean"""
+    return contextlib.redirect_stderr(io.StringIO())
+
+
 def _cdd():
     import cdd.class_.parse  # noqa: F401  (import order)
     import cdd.argparse_function.emit
@@ -563,6 +571,8 @@ def classify_outcome(before, after, path):
         return "not-created" if after is None else "created"
     if after == before:
         return "unchanged"
+    if before and not before.endswith("\n") and after.startswith(before) and len(after) > len(before):
+        return "glued-append"  # mode "a" wrote right after the last character of the last line
     try:
         mb, ma = ast.parse(before), ast.parse(after)
     except SyntaxError:
@@ -596,6 +606,7 @@ def oracle(chk, case, snaps):
               "states": "/".join(case["states"][k] for k in KINDS) if not (missing_fn or truth_quirk(case)) else "*"},
              "sync exits %s: %s" % (first["rc"], first["stderr"].strip().splitlines()[-1] if first["stderr"].strip() else ""))
     invalid = any(first["files"][k] is not None and not is_python(first["files"][k]) for k in KINDS)
+    glued = [k for k in KINDS if classify_outcome(before[k], first["files"][k], []) == "glued-append"]
     for kind in KINDS:
         name = case["names"][kind]
         path = [c.strip() for c in name.split(".")]
@@ -606,6 +617,10 @@ def oracle(chk, case, snaps):
             sig0["created_under"] = "target-name" if resolve_text(after, path) else "other-name"
         if before[kind] and not before[kind].endswith("\n"):
             sig0["no_trailing_newline"] = True
+        if outcome == "glued-append":
+            fail(dict(sig0, clause="valid-python" if not is_python(after) else "frame"),
+                 "%s had no trailing newline; the emission was appended onto its last line" % FNAME[kind])
+            continue
         # (a) valid Python
         if after is not None:
             try:
@@ -613,7 +628,7 @@ def oracle(chk, case, snaps):
             except SyntaxError as e:
                 fail(dict(sig0, clause="valid-python"), "%s is not valid Python after sync: %s" % (FNAME[kind], e))
                 continue
-        if first["rc"] != 0 or invalid:
+        if first["rc"] != 0 or invalid or glued:
             continue  # the crash / the broken file is already reported; the other clauses are about completed runs on valid files
         # (b) interface of the named target
         if truth_view is not None:
@@ -667,7 +682,8 @@ def check_sync_cases(chk, cases, label):
         for i, plan in zip(idx, plans):
             texts = cases[i]["files"] if run == 0 else real[i][run - 1]["files"]
             try:
-                em, tie = real_emissions(cases[i], texts, plan)
+                with quiet():
+                    em, tie = real_emissions(cases[i], texts, plan)
             except Exception as e:  # noqa
                 em, tie = [], {"harness_emission_error": core.exc_name(e)}
             ties.append((plan, tie))
@@ -685,8 +701,13 @@ def check_sync_cases(chk, cases, label):
                     alive[i] = False
                     chk.coverage["sync_out_of_model"] = chk.coverage.get("sync_out_of_model", 0) + 1
                     continue
-                if any(isinstance(v, dict) for v in realj.values()):
-                    alive[i] = False  # a real file is not valid Python: the oracle reports it, the AST tie cannot be evaluated
+                texts0 = c["files"] if run == 0 else real[i][run - 1]["files"]
+                if any(isinstance(v, dict) for v in realj.values()) or \
+                        any(classify_outcome(texts0[k], snap["files"][k], []) == "glued-append" for k in KINDS):
+                    # a real file is not valid Python / text was glued onto a last line without newline: a text-level effect of
+                    # mode "a" that the AST-level model does not cover; the oracle reports it
+                    alive[i] = False
+                    chk.coverage["sync_text_level_append"] = chk.coverage.get("sync_text_level_append", 0) + 1
                     continue
                 if tie and "truth_found" in tie and plan["truth"].get("found") is not None and tie["truth_found"] is not None:
                     mf = plan["truth"]["found"]
@@ -800,13 +821,28 @@ def run(chk: core.Check) -> int:
         if c["id"] in (0, 1) or str(c["id"]).startswith("witness"):
             chk.sample({"truth": c["truth"], "names": c["names"], "states": c["states"], "runs": c["runs"],
                         "flags_per_run": [s["flags"] for s in snaps], "rc": [s["rc"] for s in snaps]})
-        for sig, what in oracle(chk, c, snaps):
+        with quiet():
+            fails = oracle(chk, c, snaps)
+        for sig, what in fails:
             chk.failure(sig, what, {"fn": "sync", "case": {k: c[k] for k in ("id", "truth", "names", "states", "files", "runs")}})
+        if str(c["id"]).startswith("witness"):
+            # the witnesses of the negation theorems must (still) fail on the real code, in the recorded way
+            want = WITNESS_EXPECT[c["id"]]
+            got = [sig for sig, _ in fails if all(sig.get(k) == v for k, v in want.items())]
+            chk.oblige("witness %s of the negation theorems fails on the real code" % c["id"], "witness", bool(got),
+                       "expected a failure matching %s, oracle reported %s" % (want, [sg for sg, _ in fails]))
     chk.coverage["sync_distribution"] = dist
     return chk.finish("wild stream: random nested modules x search paths (60-70% taken from the module) x replacement nodes; structured stream: triples "
                       "(class file, method file, argparse file) with mutually different interfaces or empty/missing/target-less files, unrelated "
                       "surrounding code, truth in {class, function, argparse_function}, 1-3 consecutive real CLI runs; non-trivial = find hits / "
                       "rewrite changes something / the first run changes a file")
+
+
+WITNESS_EXPECT = {
+    "witness-never-rewritten": {"clause": "interface", "target_kind": "function", "outcome": "unchanged"},
+    "witness-dotted-append": {"clause": "second-run", "target_kind": "function", "outcome": "method-appended-at-top-level"},
+    "witness-missing-function-file": {"clause": "crash", "exc": "raises:TypeError", "function_file_missing": True},
+}
 
 
 def witness_cases():
@@ -834,7 +870,8 @@ def replay(path: str) -> int:
     case = rp["case"]
     snaps = run_real(case)
     chk = core.Check("C12", "quick", 0)
-    fails = oracle(chk, case, snaps)
+    with quiet():
+        fails = oracle(chk, case, snaps)
     want = d.get("sig")
     for sig, what in fails:
         print("replay: FAILS %s :: %s" % (json.dumps(sig, sort_keys=True), what))
